@@ -29,10 +29,19 @@ def impl_eval(case):
     cfg = cfg_of(case)
     msg = iu.dict_unwire(case['msg'])
     codec, hexbm = case['codec'], bool(case['hex'])
-    pds = sorted((int(k[3:]), v) for k, v in msg.items() if k.startswith('PDS'))
+    pds = sorted((int(k[3:]), v) for k, v in msg.items() if k.startswith('PDS'))      # 'PDS023' is tag 23 too
     carriers = sorted(int(k) for k, fc in cfg.items() if fc.get('field_processor') == 'PDS')
     want = iu.ref_pds_chunks(pds)
     o1, data, _ = iu.obs_dumps(lambda: iso8583.dumps(dict(msg), encoding=codec, iso_config=cfg, hex_bitmap=hexbm))
+    if case.get('oddkeys'):
+        # outside the property's domain (tags are not spelt with four digits: keys sort as text): only the model tie counts
+        o2 = iu.obs_loads(lambda: iso8583.loads(data, encoding=codec, iso_config=cfg, hex_bitmap=hexbm), cfg)[0] if data else 'n/a'
+        return {'obs': [o1, o2], 'violation': None, 'nontrivial': False, 'tags': ['oddkeys']}
+    if case.get('unencodable'):
+        why = None
+        if data is not None:
+            why = 'a PDS value with a character the encoding does not have was emitted instead of being refused'
+        return {'obs': [o1, 'n/a'], 'violation': why, 'tags': ['unencodable']}
     if len(want) > len(carriers):
         # beyond the capacity of the configured carriers: outside the property; only the model tie is checked
         return {'obs': [o1, 'n/a'], 'violation': None, 'nontrivial': False, 'tags': ['overflow']}
@@ -56,7 +65,7 @@ def impl_eval(case):
             why = f'decoding failed: {o2}'
         else:
             got_pds = {k: v for k, v in back.items() if k.startswith('PDS')}
-            exp_pds = {k: v for k, v in msg.items() if k.startswith('PDS')}
+            exp_pds = {f'PDS{int(k[3:]):04d}': v for k, v in msg.items() if k.startswith('PDS')}
             if got_pds != exp_pds:
                 why = (f'decoded PDS set differs: missing {sorted(set(exp_pds) - set(got_pds))[:4]} extra '
                        f'{sorted(set(got_pds) - set(exp_pds))[:4]} changed '
@@ -109,6 +118,15 @@ def explore(run, tier):
                 v = iu.text(rng, 'latin_1', rng.randrange(0, 700))
             ents.append((t, v))
         cases.append(mk(rng, 'pkg', codecs3[n % 3], ents))
+    for codec in codecs3:
+        for ch in ('\u20ac', '\u0141', '\u3042'):
+            c = mk(rng, 'pkg', codec, [(23, 'ab' + ch + 'cd'), (158, 'plain')])
+            c['unencodable'] = True
+            cases.append(c)
+    # keys spelt with fewer / more than four digits: the tag is int(key[3:]) (they come back as PDSxxxx)
+    for codec in codecs3:
+        m = {'MTI': '1240', 'PDS023': 'a', 'PDS7': 'bb', 'PDS00158': 'ccc', 'PDS1000': 'd'}
+        cases.append({'cfg': 'pkg', 'codec': codec, 'hex': 0, 'msg': iu.dict_wire(m), 'oddkeys': True})
     for k in range(1, 7):
         ents = [(100 + i, 'x' * 992) for i in range(k)]
         cases.append(mk(rng, 'pkg', 'latin_1', ents))
